@@ -628,7 +628,9 @@ def _reshape(g):
     form = g.pick(["shape_of_y", "shape_of_x", "head_concat", "shape_attr_concat", "minus1_concat", "const_concat", "identity_const",
                    "ovinit", "const", "head_concat", "shape_of_y"])
     if zero and form in ("minus1_concat", "head_concat", "shape_attr_concat"):
-        form = "shape_of_x"
+        # zero-size data and a run-time target WITHOUT a literal 0: [-1, k] with k a non-zero dim, so that -1 resolves to 0 and the
+        # known output shape has its 0 at an index where the input has none (the materialised constant then needs allowzero=1)
+        form = g.pick(["shape_of_x", "minus1_zero", "minus1_zero"])
     tgt = None
     force_allowzero = False
     if form == "shape_of_y":
@@ -682,6 +684,12 @@ def _reshape(g):
         else:
             k = g.pick(list(range(1, len(fac))))
             parts = [_i64(g, fac[:k]), _i64(g, fac[k:])]
+        t = g.emit("Concat", parts, axis=0)
+        tgt = t[0] if t else None
+    elif form == "minus1_zero":
+        nz = [d for d in shape if d != 0] or [1]
+        k = g.pick(nz + [1, 2])
+        parts = [_i64(g, [-1]), _i64(g, [k])] if g.chance(6) else [_i64(g, [k]), _i64(g, [-1])]
         t = g.emit("Concat", parts, axis=0)
         tgt = t[0] if t else None
     elif form == "const_concat":
